@@ -209,6 +209,10 @@ def run(ctx):
                               "point (integers -2..2, denominators 1..3, ten reals incl. -0.0, 0.0, the infinities, NaN) the selected path "
                               "answers with the mathematical order (exact operand facing an inexact one converted to binary32 first)")
     numtables.rule_kind_cmp(ctx, "C10-kind-grid")
+    ctx.rule("C10-chain-grid", "(op a b c) = (op a b) and (op b c) on triples of every mix of kinds (quick: eight mixes with a real in first or "
+                               "middle position) over values around 2^24 and 1/3, payloads symbolic, every test explored both ways: a "
+                               "converted operand must not be carried into the next pair")
+    numtables.rule_chain_grid(ctx, "C10-chain-grid")
     ctx.rule("C10-cross-mult", "ratios are compared by lhs.num*rhs.den against rhs.num*lhs.den, in that order")
     d_cross = numtables.rule_cross(ctx, "C10-cross-mult")
     ctx.guarded("C10-cross-mult", d_cross >= 3, lambda: cross_mult(ctx, fb))
